@@ -311,6 +311,7 @@ CALLS = ("calls", ("__call__", "__init__", "__new__", "bind", "evolve", "scoped"
 
 FORMAT_LINES = ("lines", ("format.py", "string.py"))
 MESSAGE_LINES = ("lines", ("exceptions.py",))
+CALLS_FEW = ("calls", ("construct",))  # one point per nesting level of the value
 
 
 def plan(tier, seed):
@@ -328,7 +329,7 @@ def plan(tier, seed):
         configs.append(("H9", CALLS, 2, None))
         configs.append(("H10", FORMAT_LINES, 2, None))
         configs.append(("H11", MESSAGE_LINES, 2, None))
-        configs.append(("H12", CALLS, 1, None))
+        configs.append(("H12", CALLS_FEW, 1, None))
     else:
         for h in ("H1", "H2", "H3", "H4", "H5", "H6", "H7", "H8", "H1x2", "T2", "R4", "R5", "R6"):
             configs.append((h, "line", 1, None))
